@@ -161,3 +161,6 @@ Proof. induction a; simpl; lia. Qed.
 
 Lemma length_concat (ps : list (list N)) : length (concat ps) = sum_len ps.
 Proof. induction ps; simpl; auto. rewrite app_length; lia. Qed.
+
+Lemma firstn_app_exact2 {A} (a b : list A) n : length a = n -> firstn n (a ++ b) = a.
+Proof. intros <-. apply firstn_app_exact. Qed.
